@@ -34,6 +34,10 @@ L_done == <<EvNew("task", "i1", "", "todo", "T1", "", 1), EvNew("task", "i2", ""
 L_one  == <<EvNew("task", "i1", "", "todo", "T1", "", 1)>>
 L_emptyepic == <<EvNew("epic", "i1", "", "todo", "E1", "", 1), EvNew("task", "i2", "", "todo", "T2", "", 2)>>
 L_empty == <<>>
+\* a multi-megabyte log ("BIG" is expanded by the driver into a 6 MB body)
+L_big  == <<EvNew("task", "i1", "", "todo", "T1", "BIG", 1), EvNew("task", "i2", "", "todo", "T2", "", 2)>>
+\* non-ASCII text, so that a write cut short can end inside a multi-byte character
+NewTaskUni == [TC("new_task", "", ABSENT, ABSENT, "") EXCEPT !.title = "UNI"]
 
 S(name, init, cmds, readers) == [name |-> name, init |-> init, cmds |-> cmds, readers |-> readers, nolock |-> FALSE,
                                  legacy |-> FALSE, rkind |-> "list", rid |-> "", nolog |-> FALSE]
@@ -53,6 +57,7 @@ ClaimScenarios == {
   S("claim2-epic", L_epic, P2(ClaimIn("i1", "a1"), Claim("a2")), {}),
   S("claim2-epic2", L_epic, P2(ClaimIn("i1", "a1"), ClaimIn("i1", "a2")), {}),
   SN("claim2-nolock", L_two, P2(Claim("a1"), Claim("a2")), {}),
+  S("claim2-big",  L_big,  P2(Claim("a1"), Claim("a2")), {}),
   S("claim-reopen", L_done, P2(Claim("a1"), SetState("i1", "todo", "")), {})
 }
 
@@ -78,6 +83,9 @@ PairScenarios == {
   S("prune-setdone", L_done, P2(Prune, SetState("i2", "done", "")), {}),
   S("prune-newchild", L_emptyepic, P2(Prune, NewTaskIn("i1")), {}),
   S("compact-new",   L_done, P2(Compact, NewTask), {}),
+  Legacy(S("compact-set", L_two, P2(Compact, SetState("i1", "done", "")), {})),
+  Legacy(S("compact-new", L_done, P2(Compact, NewTask), {})),
+  Legacy(S("plan-set", L_two, P2(PlanAB, SetState("i1", "done", "")), {})),
   NoLog(S("init-new", L_empty, P2(InitCmd, NewTask), {})),
   NoLog(S("init-plan", L_empty, P2(InitCmd, PlanAB), {})),
   S("init-set", L_two, P2(InitCmd, SetState("i1", "done", "")), {}),
@@ -115,6 +123,8 @@ CrashScenarios == {
   S("k-compact", L_done, P1(Compact), {}),
   S("k-plan",    L_one,  P1(PlanAB), {}),
   S("k-plan-empty", L_empty, P1(PlanAB), {}),
+  S("k-new-uni", L_one, P1(NewTaskUni), {}),
+  S("k-settitle-uni", L_two, P1(SetTitle("i1", "UNI")), {}),
   S("k-seq",     L_epic, P1(SeqC(<<"i2", "i3">>)), {}),
   S("k-set3",    L_two,  P1([TC("set", "i1", "done", ABSENT, "") EXCEPT !.title = "renamed", !.body = "text"]), {})
 }
